@@ -160,7 +160,8 @@ def body(ctx):
                ("cfg", "options", "opts2")]
     for it in range(ctx.scale(300, 3000)):
         opts = gen_opts(rng)
-        ctxd = {k: rng.choice([1, "a", "run_7", 33]) for k in rng.sample(["c1", "c2", "who"], rng.randint(0, 2))}
+        # context values include falsy ones (0, False, None, 0.0): a value that tests false is still a value
+        ctxd = {k: rng.choice([1, "a", "run_7", 33, 0, False, None, 0.0]) for k in rng.sample(["c1", "c2", "who"], rng.randint(0, 2))}
         kn = rng.choice(keysets)
         hyruns.reset_dict_keyname()
         hyruns.set_dict_keyname("context_name", kn[0])
@@ -206,6 +207,52 @@ def body(ctx):
                             {"options": opts, "context": ctxd, "keynames": kn, "eq": [e1, e2], "same": same})
         finally:
             hyruns.reset_dict_keyname()
+
+    # ---------------- histories on ONE manager object: the grid is regenerated (often with the same number of tasks)
+    # between find/search calls; every answer must be about the grid the manager holds now.  Also contexts whose values
+    # cannot cross the line protocol ("" and empty containers), checked against the oracle only.
+    for it in range(ctx.scale(150, 1500)):
+        hyruns.reset_dict_keyname()
+        cvals = rng.choice([{}, {"c1": ""}, {"c1": []}, {"who": {}}, {"c1": 0, "c2": ""}, {"c1": "a", "c2": []}])
+        opm = hyruns.OptionManager("hist", **cvals)
+        shape = None
+        for step in range(rng.randint(2, 4)):
+            opts = gen_opts(rng)
+            if shape is not None and rng.random() < 0.7:
+                # same keys and value counts as the previous grid, different values / order
+                opts = {}
+                for k, n in shape:
+                    pool = rng.choice([list(range(1, 13)), ["a", "ab", "b_1", "zz9", "model", "mod", "d", "D", "x1", "q"]])
+                    opts[k] = rng.sample(pool, n)
+            shape = [(k, len(as_list(v))) for k, v in opts.items()]
+            opm.from_cartesian_product(**opts)
+            keys = list(opts.keys())
+            vals = [as_list(opts[k]) for k in keys]
+            want = list(itertools.product(*vals))
+            got = [tuple(t[k] for k in keys) for t in opm.tasks]
+            ctx.count(("hist", step, repr(opts)), step > 0, "history_regenerated" if step else "history_first")
+            if list(map(repr, want)) != list(map(repr, got)):
+                ctx.finding("product/not_each_once", "tasks of a regenerated grid are not every combination exactly once",
+                            {"options": opts, "step": step})
+            for _ in range(2):
+                key = rng.choice(keys)
+                val = rng.choice(as_list(opts[key]))
+                how = rng.choice(["find", "search"])
+                try:
+                    found = opm.find(**{key: val}) if how == "find" else opm.search(**{key: f"^{val}$"})
+                except Exception as e:
+                    found = f"raised {type(e).__name__}"
+                expect = [i for i, w in enumerate(want) if str(w[keys.index(key)]) == str(val)]
+                if found != expect:
+                    ctx.finding("find/not_equality_filter", "find on a regenerated grid does not return exactly the tasks whose option equals the value",
+                                {"options": opts, "key": key, "val": val, "found": found, "expected": expect, "step": step, "how": how})
+            dd = json.loads(json.dumps(opm.to_dict()))
+            opm2 = hyruns.OptionManager.from_dict(dd)
+            e1, e2 = bool(opm == opm2), bool(opm2 == opm)
+            same = opm2.tasks == opm.tasks and opm2.context == cvals and opm2.options == {k: as_list(v) for k, v in opts.items()}
+            if not (e1 and e2 and same):
+                ctx.finding("roundtrip/not_equal", "manager rebuilt from its dictionary differs from the original",
+                            {"options": opts, "context": cvals, "eq": [e1, e2], "same": same, "step": step})
 
     # ---------------- correspondence
     replies = lean.ask(reqs)
